@@ -1803,6 +1803,7 @@ pub fn update_record_with_output<T: ColumnType>(
                     command,
                     "system command failed while updating the record. It will be unchanged."
                 );
+                return None;
             }
             Some(Record::System {
                 loc,
